@@ -56,6 +56,9 @@ func vHavocRange(s any) {}
 // to the given variables (verifier only; it has no run-time meaning).
 func vCallAnon(name string, captured []any, args ...any) {}
 
+// vCallAnonErr is vCallAnon for a function that returns an error, which is stored in *res.
+func vCallAnonErr(res *error, name string, captured []any, args ...any) {}
+
 func vImplies(a, b bool) bool { return !a || b }
 
 // vSame is bit-for-bit equality (for floats: equality of the bit patterns, so NaN == NaN and 0 != -0).
